@@ -72,6 +72,7 @@ func init() {
 	registerFamily("C16", C16)
 	registerFamily("C15", C15)
 	registerFamily("C12", C12)
+	registerFamily("C14", C14)
 }
 
 var _ = engine.VerifDir
